@@ -11,7 +11,7 @@ ENGINES = [
                        'reader (mc/mpd.py) + independent ISO-BMFF reader (mc/bmff.py) + synthetic media writer '
                        '(mc/synth.py); clock transition system over critical instants'},
     {'name': 'explorer', 'path': 'mc/explorer.py',
-     'serves_properties': ['C08', 'C09', 'C11', 'C19', 'C20'],
+     'serves_properties': ['C04', 'C08', 'C09', 'C11', 'C17', 'C19', 'C20'],
      'kind_free_text': 'explicit-state BFS over operation histories of the real object (rebuild + replay), '
                        'canonical-state de-duplication, deviation-level product enumeration'},
 ]
@@ -239,5 +239,48 @@ CHECKS['C16'] = dict(
     note='Crash signature = exception type + innermost repository frame; requested synthetic errors are excluded '
          'from (1) and judged by (3); /media/inspect POST is an async view this sandbox cannot run (asgiref missing), '
          'its synchronous part is driven inside a request context.')
+
+CHECKS['C04'] = dict(
+    engine='explorer',
+    technique='deviation-bounded exhaustive generation of every registered box type from an independent box table; '
+              'explicit-state search over edit programs; independent walker as size oracle',
+    design_ref='DESIGN.md §7 C04',
+    text='mc/boxspec.py holds one generator per registered box type (54, taken from fourcc.BOXES at run time; a type '
+         'without a generator fails the run), written from ISO/IEC 14496-12/-14/-15/-30, 23001-7, 23009-1 and ETSI TS '
+         '102 366: every assignment with <= 2 (quick) / 3 (thorough) deviations from the default field values '
+         '(boundary values per width, version- and flag-dependent layouts, list lengths 0-3, UTF-8 strings, 64-bit '
+         'and uuid headers; one level less for moov and the large sample entries) plus offset-consistent clear / '
+         'cenc (8 and 16 byte IV, senc or PIFF) fragments. Every byte string goes through parse->encode in {eager, '
+         'lazy} x {r, rw} before and after the lazy boxes were loaded, eager-vs-lazy toJSON comparison and '
+         'toJSON->fromJSON->encode at the original position; so does every MP4 file under tests/fixtures. Edit '
+         'programs: all sequences of <= 3 (4) edits over 20 / 17 edits (boundary assignments to mfhd/tfhd/tfdt/'
+         'trex/mvhd/mdhd/mehd/tkhd fields, remove sidx/emsg/tfdt/pssh/mehd/udta, insert tfdt v0/v1, append/insert '
+         'pssh v0/v1, emsg, free) on clear and cenc fragments and a movie box, eager and lazy; after each step the '
+         'output is walked by mc/bmff.py (sizes nest exactly, size/position attributes agree with the bytes, an '
+         'assigned value is what a re-parse reads).',
+    note='Violations are reported for minimal deviation sets: a superset is reported only for (clause, box) pairs no '
+         'failing subset shows. Lazy trees are navigated by attribute access as the library\'s users do. A lone '
+         'senc without saiz (tests/fixtures/senc.mp4) is not a well-formed tree and is only required to parse.')
+
+CHECKS['C17'] = dict(
+    engine='explorer',
+    technique='explicit-state search over management histories with exact store snapshots (SQLite image + blob tree); '
+              'invariants evaluated on the real rows after every transition',
+    design_ref='DESIGN.md §7 C17',
+    text='46 concrete management operations issued by the media user through the real endpoints with fresh CSRF '
+         'tokens (create/edit/delete stream incl. duplicate directory and foreign / missing timing reference; stream '
+         'defaults; upload clear/audio/cenc files, same name again, the name of another stream\'s file; index; edit '
+         'and delete media incl. the timing reference and through the wrong stream; add/edit/delete keys incl. the '
+         'key in use; create/edit/delete multi-period streams incl. unknown stream, no periods, existing name). '
+         'Quick: every history of length <= 2 and every extension by a 16-operation core alphabet to length 3; '
+         'thorough: length <= 3 and core extension to 4; per first operation, states de-duplicated on the full row '
+         'content + blob tree. After every transition: referential invariants on raw SQL rows and files on disk, '
+         'name uniqueness, timing reference resolvable by the service\'s own lookup, deletions compared with the '
+         'ownership closure computed from the pre-state; in every new state every listed stream (4 manifests, '
+         'init + first media segment of up to 3 representations, byte-exact read-back of uploaded files) and '
+         'multi-period stream (vod/live manifest, first init segments) must answer 200 or 4xx.',
+    note='Service checks are memoised on everything the service reads for that stream (sound at a fixed clock). A '
+         'sampled differential restart (replay of the history from the initial store must reach the same store) '
+         'guards the snapshot mechanism. The status of the management request itself is judged by C16.')
 
 NOT_BUILT = {}
